@@ -19,7 +19,7 @@ def _root(t):
 
 
 class CEval:
-    def __init__(self, view, env, cfg=None, models=None, inst=None):
+    def __init__(self, view, env, cfg=None, models=None, inst=None, default_undriven=None):
         self.v = view
         self.env = dict(env)
         self.cfg = dict(cfg or {})
@@ -41,6 +41,8 @@ class CEval:
         self.objs = {str(o): o for o in view.d.objs}
         self.state = {}        # fsm id -> current state name (for FSM-local comb leaves)
         self.missing = set()   # registers read without a value in env (evaluated as 0)
+        self.default_undriven = default_undriven
+        self.undriven = set()
 
     # ---- configuration-time integers ----------------------------------------------------------------------------------
     def cint(self, t):
@@ -252,10 +254,16 @@ class CEval:
             if isinstance(t, Obj) and t.cls == "Signal" and "." not in k:
                 rs = t.kwargs.get("reset")
                 return self.cint(rs) if rs is not None else 0      # a locally built signal that nothing drives keeps its reset value
+            if self.default_undriven is not None:
+                self.undriven.add(k)
+                return self.default_undriven
             raise Unresolved("undriven input %s" % k)
         self.busy.add(ck)
         try:
-            w = self.width(t)
+            try:
+                w = self.width(t)
+            except Unresolved:
+                w = 256          # width not known: do not truncate (record fields of interfaces take the width of what drives them)
             if nxt:
                 cur = self.env.get(k, 0)
             else:
